@@ -25,6 +25,7 @@ import re
 import numpy as np
 
 from .. import common
+from . import staticlink
 from ..fmutil import T, ad, err_class, fm, scalar, td, us
 
 MODULES = ["Connect", "ConnectLemmas"]
@@ -440,6 +441,17 @@ def oracle(spec, order, impl):
                 if cs["start"] not in ic["held"][o]:
                     return ("the output holds the entry for the producer's start after connect",
                             {"output": [c, o], "held": ic["held"][o]}, "initial-data-held")
+            # metadata composed by rules: "evaluated in the given order, later rules overwrite earlier ones" — the rule lists
+            # of the harness end with the component's own time (and a tag), whatever the transfers before them carried
+            for o, y in enumerate(cs["outs"]):
+                r = ic["info_repr"][1][o]
+                if y["info"]["k"] == "rule" and r is not None:
+                    if r[0] != cs["start"]:
+                        return ("metadata composed by rules: later rules overwrite earlier ones (the value rule for the time comes last)",
+                                {"output": [c, o], "time": r[0], "last_rule_sets": cs["start"]}, "rule-order")
+                    if y["info"].get("tag") and ["tag", f"{c}.out{o}"] not in [list(m) for m in r[3]]:
+                        return ("metadata composed by rules: later rules overwrite earlier ones (the tag rule)",
+                                {"output": [c, o], "meta": r[3]}, "rule-order")
             for i, x in enumerate(cs["ins"]):
                 if x["pull"]:
                     want = spec["comps"][x["src"][0]]["outs"][x["src"][1]]["val"]
@@ -716,7 +728,7 @@ def run(ctx, res):
     res.assumptions = [
         "harness components provide an info/data in every call in which its condition holds (conditions are conjunctions of the component's own completed exchanges)",
         "composition start = earliest component start; delays of delay adapters are non-negative",
-        "push-based outputs only (callback outputs / static slots belong to C20)",
+        "push-based outputs only in the modelled part (callback outputs belong to C20; static links: oracle-only part engines/staticlink.py)",
     ]
     for spec in corpus():
         n = len(spec["comps"])
@@ -727,9 +739,24 @@ def run(ctx, res):
         n = len(spec["comps"])
         k = 6 if n <= 3 else ctx.n(4, 8)
         check_spec(spec, gen_orders(ctx.rng, n, k), res)
+    # static links (engines/staticlink.py): a static producer and its static readers, every listing order
+    for _ in range(ctx.n(30, 300)):
+        c = staticlink.gen(ctx.rng)
+        res.case(c, True)
+        res.count("part", "static-link")
+        o = staticlink.check(c)
+        if o:
+            res.fail(c, o[0], o[1], None)
 
 
 def search(ctx, res, divergences, broken):
+    for _ in range(60):
+        c = staticlink.gen(ctx.rng)
+        res.case(c, True)
+        o = staticlink.check(c)
+        if o:
+            res.fail(c, o[0], o[1], None)
+            return
     specs = []
     for d in divergences:
         if d.get("case"):
@@ -756,6 +783,8 @@ def _fails(case):
 
 
 def shrink(ctx, f):
+    if f["case"].get("part") == "staticlink":
+        return f
     case = copy.deepcopy(f["case"])
     best = _fails(case)
     if not best:
@@ -828,6 +857,9 @@ def shrink(ctx, f):
 
 def replay(ctx, rp):
     case = rp.get("input") or (rp.get("diverging_case") or {}).get("case")
+    if case.get("part") == "staticlink":
+        o = staticlink.check(case)
+        return {"fails": bool(o), "oracle": o}
     spec = dict(case)
     order = spec.pop("order")
     impl = run_impl(spec, order)
